@@ -501,6 +501,7 @@ def expand(task):
                 cont = build(cfg, driver, hist)
                 if base_key is None:
                     base_key = raw_canon(cont)
+            cont.n = len(hist)  # fresh value of this step = len(hist)+1 on both sides
             ri = cont.apply(op)
             model, rm = model_step(hist, op, si)
             try:
